@@ -64,7 +64,15 @@ def world_job(job):
     if (decoy_spec is not None) or ("spec" not in job and R.stream(seed, "reuse").random() < 0.5):
         res["decoy_generated"] = 1
         try:
-            decoy = decoy_spec if decoy_spec is not None else mod.gen_spec(R.stream(seed, "decoy-spec"))
+            if decoy_spec is not None:
+                decoy = decoy_spec
+            elif R.stream(seed, "reuse-kind").random() < 0.5 and (spec.get("service_config") or spec.get("service_yaml")):
+                # the same API rebuilt after an edit of its option files (persistent build worker)
+                from . import grammar
+                decoy = grammar.twin_spec(R.stream(seed, "decoy-twin"), spec)
+                res["decoy_twin"] = 1
+            else:
+                decoy = mod.gen_spec(R.stream(seed, "decoy-spec"))
             decoy_spec = decoy
             import tempfile
             import shutil
@@ -74,6 +82,8 @@ def world_job(job):
             finally:
                 shutil.rmtree(d, ignore_errors=True)
             del decoy
+            import gc
+            gc.collect()      # freed objects of the decoy generation make room at the same addresses
         except Exception:  # noqa  (the decoy's own fate is judged when it is a world of its own)
             pass
     if spec.get("real_api"):
@@ -372,6 +382,7 @@ def aggregate(results):
         agg["faulty"] += pay["faulty"]
         agg["world_wall"] += pay.get("wall_s", 0.0)
         agg["faults"]["generator_process_reuse"] = agg["faults"].get("generator_process_reuse", 0) + pay.get("decoy_generated", 0)
+        agg["faults"]["generator_reuse_same_api_edited_options"] = agg["faults"].get("generator_reuse_same_api_edited_options", 0) + pay.get("decoy_twin", 0)
         for k in ("keys", "nontrivial_keys", "interleavings"):
             agg[k] |= pay[k]
         for k in ("probes", "faults"):
